@@ -116,9 +116,9 @@ Section CoerceFacts.
       destruct (cast_all ty col cast tr br) as [r|] eqn:Er; [|discriminate H]. inversion H; subst.
       destruct (IH br r Er) as [Hs Hp]. split; [cbn; f_equal; exact Hs|].
       intros Hn g v [Hg|Hg].
-      + inversion Hg; subst. exists c. cbn in Hn. inversion Hn. repeat split; [left; reflexivity|assumption|exact Ec].
-      + cbn in Hn. inversion Hn as [[Hn1 Hn2]]. destruct (Hp Hn2 g v Hg) as [c' [H1 [H2 H3]]].
-        exists c'. repeat split; [right; exact H1|exact H2|exact H3].
+      + inversion Hg; subst. exists c. cbn in Hn. injection Hn as Hn1 Hn2. split; [left; reflexivity|]. split; [exact Hn1|exact Ec].
+      + cbn in Hn. injection Hn as Hn1 Hn2. destruct (Hp Hn2 g v Hg) as [c' [H1 [H2 H3]]].
+        exists c'. split; [right; exact H1|]. split; [exact H2|exact H3].
   Qed.
 
   Lemma cast_all_complete : forall (target : list fieldT) (b : list columnT),
@@ -128,7 +128,7 @@ Section CoerceFacts.
   Proof.
     induction target as [|f tr IH]; intros b Hn Hc.
     - destruct b; [exists []; reflexivity|discriminate Hn].
-    - destruct b as [|c br]; [discriminate Hn|]. cbn in Hn. inversion Hn as [[Hn1 Hn2]].
+    - destruct b as [|c br]; [discriminate Hn|]. cbn in Hn. injection Hn as Hn1 Hn2.
       cbn [cast_all]. destruct (Hc c f (or_introl eq_refl) (or_introl eq_refl) Hn1) as [v ->].
       destruct (IH br Hn2) as [r ->]; [|exists ((f, v) :: r); reflexivity].
       intros c' f' H1 H2 H3. apply Hc; [right; exact H1|right; exact H2|exact H3].
@@ -148,7 +148,7 @@ Section CoerceFacts.
   Proof.
     unfold coerce. destruct (schema_eqb ty ty_eqb (schema b) target) eqn:E1.
     - intro H. inversion H; subst. apply schema_eqb_eq in E1. split; [exact E1|].
-      intros f v Hin. exists (f, v). repeat split; [exact Hin|left; reflexivity].
+      intros f v Hin. exists (f, v). split; [exact Hin|]. split; [reflexivity|left; reflexivity].
     - destruct (set_eqb (nms (schema b)) (nms target)); cbn [negb]; [|discriminate].
       assert (Hsel : forall b1, (if list_eqb str_eqb (nms (schema b)) (nms target) then Some b else select ty col (nms target) b) = Some b1 ->
                      nms (schema b1) = nms target /\ forall c, In c b1 -> In c b).
@@ -159,11 +159,11 @@ Section CoerceFacts.
       destruct (Hsel b1 eq_refl) as [Hn Hin1].
       destruct (schema_eqb ty ty_eqb (schema b1) target) eqn:E2.
       + intro H. inversion H; subst. apply schema_eqb_eq in E2. split; [exact E2|].
-        intros f v Hin. exists (f, v). repeat split; [apply Hin1; exact Hin|left; reflexivity].
+        intros f v Hin. exists (f, v). split; [apply Hin1; exact Hin|]. split; [reflexivity|left; reflexivity].
       + destruct (cast_all ty col cast target b1) as [b2|] eqn:E3; [|discriminate].
         intro H. inversion H; subst. destruct (cast_all_sound _ _ _ E3) as [Hs Hp]. split; [exact Hs|].
         intros f v Hin. destruct (Hp Hn f v Hin) as [c [H1 [H2 H3]]].
-        exists c. repeat split; [apply Hin1; exact H1|exact H2|right; exact H3].
+        exists c. split; [apply Hin1; exact H1|]. split; [exact H2|right; exact H3].
   Qed.
 
   (* 3. a different field set is rejected *)
@@ -200,3 +200,759 @@ Section CoerceFacts.
       destruct (cast_all_complete target b1 Hn (fun c f H1 H2 H3 => Hcast c f (Hin c H1) H2 H3)) as [b2 ->]. exists b2. reflexivity.
   Qed.
 End CoerceFacts.
+
+(* ================================================================== the data path (through the C01 refinement) *)
+Local Opaque finish_refused no_data_batch empty_batch cap_exn.
+
+Lemma batches_app a b : batches_of (a ++ b) = batches_of a ++ batches_of b.
+Proof. unfold batches_of. apply flat_map_app. Qed.
+
+Lemma batches_logs ls : batches_of (map ELog ls) = [].
+Proof. induction ls; [reflexivity|exact IHls]. Qed.
+
+Lemma batches_hdr h sp : batches_of (hdr_events h sp) = [].
+Proof. unfold hdr_events. destruct h; [destruct (hdr sp)|]; reflexivity. Qed.
+
+Lemma batches_data t : batches_of (filter is_data t) = batches_of t.
+Proof. induction t as [|e r IH]; [reflexivity|]. unfold batches_of in *. destruct e; cbn; rewrite ?IH; reflexivity. Qed.
+
+Lemma errors_end t : errors_of (filter is_end t) = errors_of t.
+Proof. induction t as [|e r IH]; [reflexivity|]. unfold errors_of in *. destruct e; cbn; rewrite ?IH; reflexivity. Qed.
+
+Lemma is_end_err e : is_end (err_event e) = true.
+Proof. reflexivity. Qed.
+
+Lemma end_logs ls : filter is_end (map ELog ls) = [].
+Proof. induction ls; [reflexivity|exact IHls]. Qed.
+
+Lemma end_hdr h sp : filter is_end (hdr_events h sp) = [].
+Proof. unfold hdr_events. destruct h; [destruct (hdr sp)|]; reflexivity. Qed.
+
+Lemma data_logs ls : filter is_data (map ELog ls) = [].
+Proof. induction ls; [reflexivity|exact IHls]. Qed.
+
+(* ---- producer: the reference observation delivers exactly the emitted batches and ends with the producer's ending *)
+Lemma obs_prod_emitted : forall sts, steps_quiet sts = true ->
+  batches_of (obs_prod CbRecord sts None) = fst (emitted sts)
+  /\ filter is_end (obs_prod CbRecord sts None) = [end_event (snd (emitted sts))]
+  /\ filter is_data (obs_prod CbRecord sts None) = map EBatch (fst (emitted sts))
+  /\ exists pre, obs_prod CbRecord sts None = pre ++ [end_event (snd (emitted sts))] /\ filter is_end pre = [].
+Proof.
+  induction sts as [|x r IH]; intro Hq.
+  - cbn. repeat split; try reflexivity. exists []. split; reflexivity.
+  - unfold steps_quiet in Hq. simpl in Hq. apply andb_true_iff in Hq as [Hx Hr].
+    cbn [obs_prod is_zero emitted]. rewrite (exec_prod x).
+    destruct (sraise x) as [e|].
+    + cbn. repeat split; try reflexivity. exists []. split; reflexivity.
+    + destruct (fin x).
+      * rewrite (deliver_quiet _ _ Hx). rewrite batches_app, !filter_app, batches_logs, end_logs, data_logs.
+        destruct (emit x) as [b|]; cbn; repeat split; try reflexivity.
+        -- exists (map ELog (slogs x) ++ [EBatch b]). rewrite <- app_assoc. split; [reflexivity|].
+           rewrite filter_app, end_logs. reflexivity.
+        -- exists (map ELog (slogs x)). split; [reflexivity|apply end_logs].
+      * destruct (emit x) as [b|].
+        -- rewrite (deliver_quiet _ _ Hx). rewrite batches_app, !filter_app, batches_logs, end_logs, data_logs.
+           destruct (IH Hr) as [H1 [H2 [H3 [pre [H4 H5]]]]].
+           destruct (emitted r) as [bs z]. cbn [fst snd] in *. cbn [app batches_of flat_map filter is_end is_data opred option_map map].
+           fold (batches_of (obs_prod CbRecord r None)). rewrite H1, H2, H3. repeat split; try reflexivity.
+           exists (map ELog (slogs x) ++ EBatch b :: pre). rewrite H4. rewrite <- app_assoc. split; [reflexivity|].
+           rewrite filter_app, end_logs. cbn. exact H5.
+        -- cbn. repeat split; try reflexivity. exists []. split; reflexivity.
+Qed.
+
+(* ---- exchange *)
+
+Lemma cut_obs_exch c : forall n sts, cut (obs_exch c sts n) = obs_exch c sts n.
+Proof.
+  induction n as [|n IH]; intro sts; [reflexivity|].
+  cbn [obs_exch]. destruct (exec_step false (hd_error sts)) as [fs fl|e]; [|apply cut_single].
+  rewrite cut_deliver. f_equal. simpl. rewrite IH. reflexivity.
+Qed.
+
+Lemma out_of_tl sts j : out_of (tl sts) j = out_of sts (S j).
+Proof. unfold out_of. destruct sts; [destruct j; reflexivity|reflexivity]. Qed.
+
+Lemma map_out_tl sts j : map (out_of (tl sts)) (seq 0 j) = map (out_of sts) (seq 1 j).
+Proof. rewrite <- seq_shift, map_map. apply map_ext. intro a. apply out_of_tl. Qed.
+
+Lemma hd_nth (sts : list step) : hd_error sts = nth_error sts 0.
+Proof. destruct sts; reflexivity. Qed.
+
+Lemma nth_tl (sts : list step) j : nth_error (tl sts) j = nth_error sts (S j).
+Proof. destruct sts; [destruct j; reflexivity|reflexivity]. Qed.
+
+(* n inputs: j <= n outputs, the i-th being what the i-th process() call emitted; fewer than n only because the
+   j-th call failed, which is then the one error *)
+Lemma obs_exch_outputs : forall n sts, steps_quiet sts = true ->
+  let t := obs_exch CbRecord sts n in
+  exists j, (j <= n)%nat /\ batches_of t = map (out_of sts) (seq 0 j) /\ filter is_data t = map EBatch (batches_of t) /\
+    (forall i, (i < j)%nat -> exists fs fl, exec_step false (nth_error sts i) = SFrames fs fl) /\
+    ((j = n /\ filter is_end t = []) \/
+     ((j < n)%nat /\ exists e, exec_step false (nth_error sts j) = SErr e /\ filter is_end t = [err_event e])).
+Proof.
+  induction n as [|n IH]; intros sts Hq; cbn zeta.
+  - exists O. cbn. split; [lia|]. split; [reflexivity|]. split; [reflexivity|]. split; [intros i Hi; lia|]. left. split; reflexivity.
+  - destruct (hd_quiet sts Hq) as [Hh Ht]. cbn [obs_exch].
+    destruct (exec_step false (hd_error sts)) as [fs fl|e] eqn:E.
+    + destruct (IH (tl sts) Ht) as [j [Hj [Hb [Hd [Hok He]]]]]. cbn zeta in *.
+      exists (S j). rewrite (deliver_quiet _ _ Hh). rewrite batches_app, !filter_app, batches_logs, end_logs, data_logs.
+      cbn [app batches_of flat_map filter is_data is_end]. fold (batches_of (obs_exch CbRecord (tl sts) n)).
+      rewrite Hb, map_out_tl. split; [lia|]. split; [cbn [seq map]; unfold out_of at 1; rewrite hd_nth; reflexivity|].
+      split; [cbn [map]; f_equal; rewrite Hd, Hb, map_out_tl; reflexivity|].
+      split.
+      { intros [|i] Hi; [rewrite <- hd_nth; eauto|]. rewrite <- nth_tl. apply Hok. lia. }
+      destruct He as [[-> He]|[Hlt [e [He1 He2]]]].
+      * left. split; [reflexivity|exact He].
+      * right. split; [lia|]. exists e. rewrite <- nth_tl. split; [exact He1|exact He2].
+    + exists O. split; [lia|]. split; [reflexivity|]. split; [reflexivity|]. split; [intros i Hi; lia|].
+      right. split; [lia|]. exists e. split; [rewrite <- hd_nth; exact E|reflexivity].
+Qed.
+
+(* well-behaved steps do not fail *)
+Lemma good_exch_ok x : good_exch x = true -> exists fs fl, exec_step false (Some x) = SFrames fs fl.
+Proof.
+  unfold good_exch, exec_step. intro H. apply andb_true_iff in H as [H H3]. apply andb_true_iff in H as [H1 H2].
+  destruct (fin x); [discriminate H1|]. cbn [andb negb]. destruct (sraise x); [discriminate H2|].
+  destruct (emit x); [|discriminate H3]. eexists. eexists. reflexivity.
+Qed.
+
+Lemma obs_prod_data : forall sts n, steps_quiet sts = true ->
+  filter is_data (obs_prod CbRecord sts n) = map EBatch (batches_of (obs_prod CbRecord sts n)).
+Proof.
+  induction sts as [|x r IH]; intros n Hq.
+  - cbn. destruct (is_zero n); reflexivity.
+  - unfold steps_quiet in Hq. simpl in Hq. apply andb_true_iff in Hq as [Hx Hr].
+    cbn [obs_prod]. destruct (is_zero n); [reflexivity|]. rewrite (exec_prod x).
+    destruct (sraise x) as [e|]; [reflexivity|].
+    destruct (fin x).
+    + rewrite (deliver_quiet _ _ Hx), batches_app, filter_app, batches_logs, data_logs.
+      destruct (emit x); [destruct (is_zero (opred n))|]; reflexivity.
+    + destruct (emit x) as [b|]; [|reflexivity].
+      rewrite (deliver_quiet _ _ Hx), batches_app, filter_app, batches_logs, data_logs.
+      cbn [app filter is_data batches_of flat_map map]. fold (batches_of (obs_prod CbRecord r (opred n))).
+      rewrite (IH _ Hr). reflexivity.
+Qed.
+
+(* ---- what a stream call whose init succeeded observes on the socket family / what HTTP observes component-wise *)
+Definition body_of (sp : stream_prog) (sc : script) : list event :=
+  match sc with
+  | SIter _ k a _ => obs_prod CbRecord (steps sp) (iter_n k a)
+  | SExch _ n _ _ => obs_exch CbRecord (steps sp) n
+  | SUnary _ => []
+  end.
+Definition hdr_of (sc : script) : bool := match sc with SIter h _ _ _ | SExch h _ _ _ => h | _ => false end.
+Definition is_stream (sc : script) : bool := match sc with SUnary _ => false | _ => true end.
+
+Lemma observe_shape sp sc :
+  ires sp = InitOk -> is_stream sc = true -> records sc = true -> no_exc_logs (PStream sp) = true ->
+  cut (observe (PStream sp) sc) = map ELog (ilogs sp) ++ hdr_events (hdr_of sc) sp ++ body_of sp sc.
+Proof.
+  intros Hi Hs Hrec Hq. cbn in Hq. apply andb_true_iff in Hq as [Hil Hst].
+  destruct sc as [c|h k a c|h n a c]; [discriminate Hs| |]; destruct c; try discriminate Hrec; cbn [observe body_of hdr_of]; rewrite Hi.
+  - fold (iter_n k a). rewrite (deliver_quiet _ _ Hil), (cut_app_nt _ _ (nonterm_logs _)), (cut_app_nt _ _ (nonterm_hdr h sp)), cut_obs_prod. reflexivity.
+  - rewrite (deliver_quiet _ _ Hil), (cut_app_nt _ _ (nonterm_logs _)), (cut_app_nt _ _ (nonterm_hdr h sp)), cut_obs_exch. reflexivity.
+Qed.
+
+Lemma data_hdr h sp : filter is_data (hdr_events h sp) = hdr_events h sp.
+Proof. unfold hdr_events. destruct h; [destruct (hdr sp)|]; reflexivity. Qed.
+
+Lemma shape_batches sp sc : batches_of (map ELog (ilogs sp) ++ hdr_events (hdr_of sc) sp ++ body_of sp sc) = batches_of (body_of sp sc).
+Proof. rewrite !batches_app, batches_logs, batches_hdr. reflexivity. Qed.
+
+Lemma shape_end sp sc : filter is_end (map ELog (ilogs sp) ++ hdr_events (hdr_of sc) sp ++ body_of sp sc) = filter is_end (body_of sp sc).
+Proof. rewrite !filter_app, end_logs, end_hdr. reflexivity. Qed.
+
+Lemma shape_data sp sc : filter is_data (map ELog (ilogs sp) ++ hdr_events (hdr_of sc) sp ++ body_of sp sc) = hdr_events (hdr_of sc) sp ++ filter is_data (body_of sp sc).
+Proof. rewrite !filter_app, data_logs, data_hdr. reflexivity. Qed.
+
+(* both transports, as far as C10 looks: batches, data events (header + batches), endings *)
+Definition sees (t : list event) (sp : stream_prog) (sc : script) : Prop :=
+  batches_of t = batches_of (body_of sp sc)
+  /\ filter is_data t = hdr_events (hdr_of sc) sp ++ filter is_data (body_of sp sc)
+  /\ filter is_end t = filter is_end (body_of sp sc).
+
+Lemma pipe_sees sp sc :
+  ires sp = InitOk -> is_stream sc = true -> legal (PStream sp) sc = true -> records sc = true -> no_exc_logs (PStream sp) = true ->
+  pipe_reads (PStream sp) sc = true ->
+  run_pipe (PStream sp) sc = map ELog (ilogs sp) ++ hdr_events (hdr_of sc) sp ++ body_of sp sc /\ sees (run_pipe (PStream sp) sc) sp sc.
+Proof.
+  intros Hi Hs Hl Hr Hq Hp. rewrite (pipe_refines _ _ Hl Hr Hq Hp), (observe_shape sp sc Hi Hs Hr Hq).
+  split; [reflexivity|]. split; [apply shape_batches|]. split; [apply shape_data|apply shape_end].
+Qed.
+
+Lemma http_sees cfg sp sc :
+  ires sp = InitOk -> is_stream sc = true -> legal (PStream sp) sc = true -> records sc = true -> no_exc_logs (PStream sp) = true ->
+  complete sc = true -> fits cfg (PStream sp) sc = true -> first_turn_ok cfg (PStream sp) sc = true ->
+  sees (run_http cfg (PStream sp) sc) sp sc.
+Proof.
+  intros Hi Hs Hl Hr Hq Hc Hf Ho. pose proof (http_refines_partial cfg _ _ Hl Hr Hq Hc Hf Ho) as H.
+  rewrite (observe_shape sp sc Hi Hs Hr Hq) in H. unfold proj in H. inversion H as [[H1 H2 H3]]. unfold sees.
+  rewrite <- (batches_data (run_http cfg (PStream sp) sc)), H2, batches_data, shape_batches, H3, shape_end, shape_data.
+  repeat split; reflexivity.
+Qed.
+
+(* ---- a producer that ends by finish() never puts an error into an HTTP response: C01's premise first_turn_ok holds *)
+Lemma quiet_In ls m : quiet ls = true -> In m ls -> is_exc m = false.
+Proof.
+  unfold quiet. rewrite forallb_forall. intros H Hin. specialize (H m Hin). destruct (is_exc m); [discriminate H|reflexivity].
+Qed.
+
+Lemma parse_init_ok : forall fs pend, (forall e, ~ In (FErr e) fs) -> (forall m, In (FLog m) fs -> is_exc m = false) ->
+  exists es o, http_parse_init CbRecord fs pend = (es, Some o).
+Proof.
+  induction fs as [|f r IH]; intros pend He Hl; [eexists; eexists; reflexivity|].
+  assert (He' : forall e, ~ In (FErr e) r) by (intros e Hc; apply (He e); right; exact Hc).
+  assert (Hl' : forall m, In (FLog m) r -> is_exc m = false) by (intros m Hc; apply Hl; right; exact Hc).
+  destruct f as [m|b|e|v|t|]; cbn [http_parse_init].
+  - rewrite (log_event_quiet m (Hl m (or_introl eq_refl))). destruct (IH pend He' Hl') as [es [o ->]]. eexists; eexists; reflexivity.
+  - apply IH; assumption.
+  - exfalso. apply (He e). left. reflexivity.
+  - apply IH; assumption.
+  - eexists; eexists; reflexivity.
+  - apply IH; assumption.
+Qed.
+
+Lemma frames_clean cfg : forall sts i z, steps_quiet sts = true -> snd (emitted sts) = EndFinish ->
+  (forall e, ~ In (FErr e) (http_frames cfg sts i z)) /\ (forall m, In (FLog m) (http_frames cfg sts i z) -> is_exc m = false).
+Proof.
+  induction sts as [|x r IH]; intros i z Hq Hend; [split; [intros e []|intros m []]|].
+  unfold steps_quiet in Hq. simpl in Hq. apply andb_true_iff in Hq as [Hx Hr].
+  assert (HE : forall (tl : list frame), (forall e, ~ In (FErr e) tl) -> forall e, ~ In (FErr e) (map FLog (slogs x) ++ tl)).
+  { intros tl H1 e Hc. apply in_app_or in Hc as [Hc|Hc]; [apply in_map_iff in Hc as [m' [Hm' _]]; discriminate Hm'|exact (H1 e Hc)]. }
+  assert (HM : forall (tl : list frame), (forall m, In (FLog m) tl -> is_exc m = false) -> forall m, In (FLog m) (map FLog (slogs x) ++ tl) -> is_exc m = false).
+  { intros tl H2 m Hc. apply in_app_or in Hc as [Hc|Hc]; [|exact (H2 m Hc)].
+    apply in_map_iff in Hc as [m' [Hm' Hin]]. inversion Hm'; subst. exact (quiet_In _ _ Hx Hin). }
+  cbn [http_frames emitted] in *. rewrite (exec_prod x). destruct (sraise x) as [e0|]; [discriminate Hend|].
+  destruct (fin x).
+  - split; [apply HE|apply HM].
+    + intros e Hc. destruct (emit x); cbn in Hc; [destruct Hc as [Hc|[]]; discriminate Hc|destruct Hc].
+    + intros m Hc. destruct (emit x); cbn in Hc; [destruct Hc as [Hc|[]]; discriminate Hc|destruct Hc].
+  - destruct (emit x) as [b|]; [|discriminate Hend].
+    assert (Hend' : snd (emitted r) = EndFinish) by (destruct (emitted r); exact Hend).
+    assert (Hrest : forall j z', (forall e, ~ In (FErr e) (http_frames cfg r j z')) /\ (forall m, In (FLog m) (http_frames cfg r j z') -> is_exc m = false)).
+    { intros j z'. apply IH; [exact Hr|exact Hend']. }
+    destruct (keep_going cfg _).
+    + rewrite <- app_assoc. split; [apply HE|apply HM].
+      * intros e' [Hc|Hc]; [discriminate Hc|exact (proj1 (Hrest _ _) e' Hc)].
+      * intros m' [Hc|Hc]; [discriminate Hc|exact (proj2 (Hrest _ _) m' Hc)].
+    + rewrite <- app_assoc. split; [apply HE|apply HM].
+      * intros e' [Hc|[Hc|Hc]]; [discriminate Hc|discriminate Hc|exact (proj1 (Hrest _ _) e' Hc)].
+      * intros m' [Hc|[Hc|Hc]]; [discriminate Hc|discriminate Hc|exact (proj2 (Hrest _ _) m' Hc)].
+Qed.
+
+Lemma finishing_first_turn_ok cfg sp h k a :
+  no_exc_logs (PStream sp) = true -> snd (emitted (steps sp)) = EndFinish -> first_turn_ok cfg (PStream sp) (SIter h k a CbRecord) = true.
+Proof.
+  intros Hq Hend. cbn in Hq. apply andb_true_iff in Hq as [Hil Hst]. cbn [first_turn_ok].
+  set (fr := http_frames cfg (steps sp) 0 _).
+  destruct (frames_clean cfg (steps sp) 0 (add_sizes cfg (base cfg) (if h then [] else map FLog (ilogs sp))) Hst Hend) as [H1 H2]. fold fr in H1, H2.
+  destruct (parse_init_ok (map FLog (ilogs sp) ++ fr) []) as [es [o ->]]; [| |reflexivity].
+  - intros e Hc. apply in_app_or in Hc as [Hc|Hc]; [apply in_map_iff in Hc as [m' [Hm' _]]; discriminate Hm'|exact (H1 e Hc)].
+  - intros m Hc. apply in_app_or in Hc as [Hc|Hc]; [|exact (H2 m Hc)].
+    apply in_map_iff in Hc as [m' [Hm' Hin]]. inversion Hm'; subst. exact (quiet_In _ _ Hil Hin).
+Qed.
+
+(* ================================================================== lifecycle: socket family *)
+
+Lemma cancels_app a b : cancels (a ++ b) = (cancels a + cancels b)%nat.
+Proof. unfold cancels. rewrite filter_app, app_length. reflexivity. Qed.
+
+Lemma processes_app a b : processes (a ++ b) = processes a ++ processes b.
+Proof. apply filter_app. Qed.
+
+Lemma errors_app a b : errors_of (a ++ b) = errors_of a ++ errors_of b.
+Proof. apply filter_app. Qed.
+
+Lemma drain_no_error c : forall q, errors_of (cli_drain c q) = [].
+Proof.
+  induction q as [|f r IH]; [reflexivity|]. destruct f as [m|b|e|v|t|]; cbn [cli_drain]; try exact IH; try reflexivity.
+  destruct (lvl m); try reflexivity; destruct c; try reflexivity; exact IH.
+Qed.
+
+Lemma drain_no_batch c : forall q, batches_of (cli_drain c q) = [].
+Proof.
+  induction q as [|f r IH]; [reflexivity|]. destruct f as [m|b|e|v|t|]; cbn [cli_drain]; try exact IH; try reflexivity.
+  destruct (lvl m); try reflexivity; destruct c; try reflexivity; exact IH.
+Qed.
+
+Lemma srv_step_spec producer rej st fs cs st' : srv_step producer rej st = (fs, cs, st') ->
+  cancels cs = O /\ p_closed st' = p_closed st /\ p_it st' = p_it st /\ (rej <> None -> cs = []).
+Proof.
+  unfold srv_step. destruct (p_live st).
+  - destruct rej as [e|].
+    + intro H. inversion H; subst. repeat split; reflexivity.
+    + destruct (srv_tick producer (hd_error (p_rest st))) as [fs0 ended]. intro H. inversion H; subst.
+      repeat split; try reflexivity. intro Hc. congruence.
+  - intro H. inversion H; subst. repeat split; reflexivity.
+Qed.
+
+Lemma do_close_spec c cancel st es cs st' : do_close c cancel st = (es, cs, st') ->
+  errors_of es = [] /\ batches_of es = [] /\ processes cs = [] /\ p_closed st' = true /\ p_it st' = p_it st
+  /\ (cancel = false -> cs = []) /\ (cancels cs <= 1)%nat /\ (p_closed st = true -> es = [] /\ cs = [] /\ st' = st).
+Proof.
+  unfold do_close. destruct (p_closed st) eqn:Ec.
+  - intro H. inversion H; subst. repeat split; try reflexivity; try (cbn; lia); try exact Ec.
+  - unfold srv_end. destruct (p_live st); intro H; inversion H; subst; cbn.
+    + repeat split; try apply drain_no_error; try apply drain_no_batch; try reflexivity; try discriminate.
+      * destruct cancel; reflexivity.
+      * intro Hc. rewrite Hc. reflexivity.
+      * destruct cancel; cbn; lia.
+    + repeat split; try apply drain_no_error; try apply drain_no_batch; try reflexivity; try discriminate. cbn. lia.
+Qed.
+
+Lemma do_tick_spec c producer rej st es cs st' o : do_tick c producer rej st = (es, cs, st', o) ->
+  cancels cs = O /\ p_it st' = p_it st /\ (rej <> None -> cs = [])
+  /\ (p_closed st = true -> es = [refused] /\ cs = [] /\ st' = st /\ o = TErr).
+Proof.
+  unfold do_tick. destruct (p_closed st) eqn:Ec.
+  - intro H. inversion H; subst. repeat split; reflexivity.
+  - destruct (srv_step producer rej st) as [[fs cs1] st1] eqn:Es. destruct (srv_step_spec _ _ _ _ _ _ Es) as [H1 [H2 [H3 H4]]].
+    destruct (cli_read c (p_q st ++ fs)) as [[es1 rd] r].
+    destruct rd as [b|v|t| |e|].
+    + intro H. inversion H; subst. repeat split; try assumption; discriminate.
+    + intro H. inversion H; subst. repeat split; try assumption; discriminate.
+    + intro H. inversion H; subst. repeat split; try assumption; discriminate.
+    + destruct producer; intro H; inversion H; subst; repeat split; try assumption; discriminate.
+    + destruct (do_close c false (p_set_q st1 r)) as [[es2 cs2] st2] eqn:Ed.
+      destruct (do_close_spec _ _ _ _ _ _ Ed) as [_ [_ [_ [_ [Hit [Hcs _]]]]]]. rewrite (Hcs eq_refl).
+      intro H. inversion H; subst. rewrite app_nil_r. repeat split; try assumption; try discriminate. rewrite Hit. exact H3.
+    + intro H. inversion H; subst. repeat split; try assumption; discriminate.
+Qed.
+
+Lemma p_closed_set_it st i : p_closed (p_set_it st i) = p_closed st.
+Proof. reflexivity. Qed.
+
+Lemma do_iter_spec c : forall fuel k st es cs st', do_iter fuel c k st = (es, cs, st') ->
+  cancels cs = O
+  /\ (p_closed st = true -> p_closed st' = true /\ cs = [] /\ batches_of es = [] /\
+      (fuel <> O -> es = if is_zero k then [] else [refused])).
+Proof.
+  induction fuel as [|f IH]; intros k st es cs st'; cbn [do_iter].
+  - destruct (is_zero k); intro H; inversion H; subst; repeat split; try reflexivity; try assumption; congruence.
+  - destruct (is_zero k) eqn:Hz.
+    + intro H. inversion H; subst. repeat split; try reflexivity; assumption.
+    + destruct (do_tick c true None st) as [[[es1 cs1] st1] o] eqn:Et.
+      destruct (do_tick_spec _ _ _ _ _ _ _ _ Et) as [H1 [H2 [_ H4]]].
+      destruct o.
+      * destruct (do_iter f c (opred k) st1) as [[es2 cs2] st2] eqn:Ei.
+        destruct (IH _ _ _ _ _ Ei) as [I1 I2]. intro H. inversion H; subst.
+        split; [rewrite cancels_app, H1, I1; reflexivity|].
+        intro Hc. destruct (H4 Hc) as [_ [_ [_ Ho]]]. discriminate Ho.
+      * intro H. inversion H; subst. split; [exact H1|]. intro Hc. destruct (H4 Hc) as [-> [-> [-> _]]]. repeat split; try reflexivity. exact Hc.
+      * intro H. inversion H; subst. split; [exact H1|]. intro Hc. destruct (H4 Hc) as [-> [-> [-> _]]]. repeat split; try reflexivity. exact Hc.
+      * intro H. inversion H; subst. split; [exact H1|]. intro Hc. destruct (H4 Hc) as [-> [-> [-> _]]]. repeat split; try reflexivity. exact Hc.
+Qed.
+
+Lemma pstep_closed producer c o st sg st' : p_closed st = true -> pstep producer c o st = (sg, st') ->
+  p_closed st' = true /\ refusal o sg.
+Proof.
+  intros Hc. destruct o as [k| |rej| |]; cbn [pstep].
+  - destruct (do_iter (pfuel st) c k st) as [[es cs] st1] eqn:E. intro H. inversion H; subst.
+    destruct (do_iter_spec _ _ _ _ _ _ _ E) as [_ H2]. destruct (H2 Hc) as [H3 [-> [H5 H6]]].
+    split; [exact H3|]. split; [reflexivity|]. split; [exact H5|]. cbn [fst]. apply H6. unfold pfuel. discriminate.
+  - destruct (p_it st).
+    + intro H. inversion H; subst. split; [exact Hc|]. repeat split. right. reflexivity.
+    + destruct (do_tick c true None st) as [[[es cs] st1] o] eqn:E. destruct (do_tick_spec _ _ _ _ _ _ _ _ E) as [_ [_ [_ H4]]].
+      destruct (H4 Hc) as [-> [-> [-> _]]]. intro H. inversion H; subst. split; [exact Hc|]. repeat split. left. reflexivity.
+    + intro H. inversion H; subst. split; [exact Hc|]. repeat split. right. reflexivity.
+  - destruct (do_tick c false rej st) as [[[es cs] st1] o] eqn:E. destruct (do_tick_spec _ _ _ _ _ _ _ _ E) as [_ [_ [_ H4]]].
+    destruct (H4 Hc) as [-> [-> [-> _]]]. intro H. inversion H; subst. split; [exact Hc|]. repeat split.
+  - destruct (do_close c false st) as [[es cs] st1] eqn:E. destruct (do_close_spec _ _ _ _ _ _ E) as [_ [_ [_ [_ [_ [_ [_ H8]]]]]]].
+    destruct (H8 Hc) as [-> [-> ->]]. intro H. inversion H; subst. split; [exact Hc|]. repeat split.
+  - destruct (do_close c true st) as [[es cs] st1] eqn:E. destruct (do_close_spec _ _ _ _ _ _ E) as [_ [_ [_ [_ [_ [_ [_ H8]]]]]]].
+    destruct (H8 Hc) as [-> [-> ->]]. intro H. inversion H; subst. split; [exact Hc|]. repeat split.
+Qed.
+
+(* only cancel() makes the server run on_cancel, at most once, and it closes the session *)
+Lemma pstep_cancels producer c o st sg st' : pstep producer c o st = (sg, st') ->
+  cancels (snd sg) = O \/ (o = OCancel /\ p_closed st = false /\ p_closed st' = true /\ (cancels (snd sg) <= 1)%nat).
+Proof.
+  destruct o as [k| |rej| |]; cbn [pstep].
+  - destruct (do_iter (pfuel st) c k st) as [[es cs] st1] eqn:E. intro H. inversion H; subst. left. exact (proj1 (do_iter_spec _ _ _ _ _ _ _ E)).
+  - destruct (p_it st); try (intro H; inversion H; subst; left; reflexivity).
+    destruct (do_tick c true None st) as [[[es cs] st1] o] eqn:E. intro H. inversion H; subst. left. exact (proj1 (do_tick_spec _ _ _ _ _ _ _ _ E)).
+  - destruct (do_tick c false rej st) as [[[es cs] st1] o] eqn:E. intro H. inversion H; subst. left. exact (proj1 (do_tick_spec _ _ _ _ _ _ _ _ E)).
+  - destruct (do_close c false st) as [[es cs] st1] eqn:E. destruct (do_close_spec _ _ _ _ _ _ E) as [_ [_ [_ [_ [_ [H6 _]]]]]].
+    intro H. inversion H; subst. left. rewrite (H6 eq_refl). reflexivity.
+  - destruct (do_close c true st) as [[es cs] st1] eqn:E. destruct (do_close_spec _ _ _ _ _ _ E) as [_ [_ [_ [H4 [_ [_ [H7 H8]]]]]]].
+    intro H. inversion H; subst. destruct (p_closed st) eqn:Ec.
+    + left. destruct (H8 eq_refl) as [_ [-> _]]. reflexivity.
+    + right. repeat split; assumption.
+Qed.
+
+Lemma run_ops_closed producer c : forall ops st segs st', p_closed st = true -> run_ops (pstep producer c) ops st = (segs, st') ->
+  Forall2 refusal ops segs /\ all_calls segs = [] /\ p_closed st' = true.
+Proof.
+  induction ops as [|o r IH]; intros st segs st' Hc; cbn [run_ops].
+  - intro H. inversion H; subst. repeat split; [constructor|assumption].
+  - destruct (pstep producer c o st) as [sg st1] eqn:E. destruct (pstep_closed _ _ _ _ _ _ Hc E) as [Hc1 Hr].
+    destruct (run_ops (pstep producer c) r st1) as [l st2] eqn:Er. destruct (IH _ _ _ Hc1 Er) as [H1 [H2 H3]].
+    intro H. inversion H; subst. split; [constructor; assumption|]. split; [|exact H3].
+    unfold all_calls in *. cbn [flat_map]. rewrite H2. destruct Hr as [-> _]. reflexivity.
+Qed.
+
+Lemma run_ops_cancels producer c : forall ops st segs st', run_ops (pstep producer c) ops st = (segs, st') ->
+  (cancels (all_calls segs) <= (if p_closed st then 0 else 1))%nat.
+Proof.
+  induction ops as [|o r IH]; intros st segs st'; cbn [run_ops].
+  - intro H. inversion H; subst. cbn. destruct (p_closed st'); lia.
+  - destruct (pstep producer c o st) as [sg st1] eqn:E. destruct (run_ops (pstep producer c) r st1) as [l st2] eqn:Er.
+    intro H. inversion H; subst. unfold all_calls. cbn [flat_map]. rewrite cancels_app. fold (all_calls l).
+    pose proof (IH _ _ _ Er) as Hrest.
+    destruct (p_closed st) eqn:Ec.
+    + destruct (pstep_closed _ _ _ _ _ _ Ec E) as [Hc1 [Hs _]]. rewrite Hs, Hc1 in *. cbn. lia.
+    + destruct (pstep_cancels _ _ _ _ _ _ E) as [H0|[_ [_ [Hc1 Hle]]]].
+      * rewrite H0. destruct (p_closed st1); lia.
+      * rewrite Hc1 in Hrest. lia.
+Qed.
+
+Lemma pstep_cancel_op producer c st sg st' : pstep producer c OCancel st = (sg, st') ->
+  errors_of (fst sg) = [] /\ batches_of (fst sg) = [] /\ processes (snd sg) = [] /\ p_closed st' = true.
+Proof.
+  cbn [pstep]. destruct (do_close c true st) as [[es cs] st1] eqn:E. destruct (do_close_spec _ _ _ _ _ _ E) as [H1 [H2 [H3 [H4 _]]]].
+  intro H. inversion H; subst. repeat split; assumption.
+Qed.
+
+(* an input that _coerce_input_batch rejects never reaches process() *)
+Lemma pstep_rejected producer c e st sg st' : pstep producer c (OExch (Some e)) st = (sg, st') -> snd sg = [].
+Proof.
+  cbn [pstep]. destruct (do_tick c false (Some e) st) as [[[es cs] st1] o] eqn:E.
+  destruct (do_tick_spec _ _ _ _ _ _ _ _ E) as [_ [_ [H3 _]]]. intro H. inversion H; subst. apply H3. discriminate.
+Qed.
+
+(* ================================================================== lifecycle: HTTP (repaired client) *)
+Lemma http_turn_calls cfg : forall sts i z fs cs, http_turn cfg sts i z = (fs, cs) -> cancels cs = O.
+Proof.
+  induction sts as [|x r IH]; intros i z fs cs; cbn [http_turn].
+  - intro H. inversion H; subst. reflexivity.
+  - destruct (exec_step true (Some x)) as [fs0 [|]|e].
+    + intro H. inversion H; subst. reflexivity.
+    + destruct (keep_going cfg _).
+      * destruct (http_turn cfg r (S i) _) as [fs' cs'] eqn:E. intro H. inversion H; subst. cbn. exact (IH _ _ _ _ E).
+      * intro H. inversion H; subst. reflexivity.
+    + intro H. inversion H; subst. reflexivity.
+Qed.
+
+Definition h_same (a b : hst) : Prop := h_canc a = h_canc b /\ h_fin a = h_fin b /\ h_tok a = h_tok b.
+
+Lemma h_same_refl a : h_same a a. Proof. repeat split. Qed.
+Lemma h_same_it a i : h_same a (h_set_it a i). Proof. repeat split. Qed.
+Lemma h_same_pend a p : h_same a (h_set_pend a p). Proof. repeat split. Qed.
+Lemma h_same_trans a b c : h_same a b -> h_same b c -> h_same a c.
+Proof. unfold h_same. intros [H1 [H2 H3]] [H4 [H5 H6]]. repeat split; congruence. Qed.
+
+Lemma hcont_spec cfg sts c : forall fuel fs st es cs st' o, hcont fuel cfg sts c fs st = (es, cs, st', o) ->
+  cancels cs = O /\ h_same st st'.
+Proof.
+  induction fuel as [|f IH]; intros fs st es cs st' o; cbn [hcont]; destruct (hscan c fs) as [es0 sc]; destruct sc as [b r|t| |e|].
+  all: try (intro H; inversion H; subst; split; [reflexivity|try apply h_same_it; apply h_same_refl]).
+  destruct (http_turn cfg (skipn t sts) t (base cfg)) as [fs' cs1] eqn:Et.
+  destruct (hcont f cfg sts c fs' st) as [[[es' cs'] st1] o'] eqn:Ec. destruct (IH _ _ _ _ _ _ Ec) as [H1 H2].
+  intro H. inversion H; subst. split; [|exact H2]. rewrite cancels_app, (http_turn_calls _ _ _ _ _ _ Et), H1. reflexivity.
+Qed.
+
+Lemma hnext_spec fixed cfg sts c st es cs st' o : hnext fixed cfg sts c st = (es, cs, st', o) ->
+  cancels cs = O /\ h_same st st'
+  /\ (fixed = true -> h_canc st = true -> es = [refused] /\ cs = [] /\ o = TErr).
+Proof.
+  unfold hnext. destruct (fixed && h_canc st) eqn:Ef.
+  - intro H. inversion H; subst. split; [reflexivity|]. split; [apply h_same_it|]. intros _ _. repeat split.
+  - assert (Hno : fixed = true -> h_canc st = true -> es = [refused] /\ cs = [] /\ o = TErr).
+    { intros -> Hc. rewrite Hc in Ef. discriminate Ef. }
+    destruct (h_it st) as [| |fs|].
+    + intro H. inversion H; subst. split; [reflexivity|]. split; [apply h_same_refl|exact Hno].
+    + destruct (h_pend st) as [|b r].
+      * destruct (h_fin st).
+        -- intro H. inversion H; subst. split; [reflexivity|]. split; [apply h_same_it|exact Hno].
+        -- destruct (h_tok st) as [t|].
+           ++ destruct (http_turn cfg (skipn t sts) t (base cfg)) as [fs cs1] eqn:Et.
+              destruct (hcont (S (List.length sts)) cfg sts c fs st) as [[[es' cs'] st1] o'] eqn:Ec.
+              destruct (hcont_spec _ _ _ _ _ _ _ _ _ _ Ec) as [H1 H2].
+              intro H. inversion H; subst. split; [rewrite cancels_app, (http_turn_calls _ _ _ _ _ _ Et), H1; reflexivity|]. split; [exact H2|exact Hno].
+           ++ intro H. inversion H; subst. split; [reflexivity|]. split; [apply h_same_it|exact Hno].
+      * intro H. inversion H; subst. split; [reflexivity|]. split; [apply h_same_pend|exact Hno].
+    + destruct (hcont (S (List.length sts)) cfg sts c fs st) as [[[es' cs'] st1] o'] eqn:Ec.
+      destruct (hcont_spec _ _ _ _ _ _ _ _ _ _ Ec) as [H1 H2]. intro H. inversion H; subst. split; [exact H1|]. split; [exact H2|exact Hno].
+    + intro H. inversion H; subst. split; [reflexivity|]. split; [apply h_same_refl|exact Hno].
+Qed.
+
+Lemma hiter_spec fixed cfg sts c : forall n k st es cs st', hiter n fixed cfg sts c k st = (es, cs, st') ->
+  cancels cs = O /\ h_same st st'
+  /\ (fixed = true -> h_canc st = true -> cs = [] /\ batches_of es = [] /\ (n <> O -> es = if is_zero k then [] else [refused])).
+Proof.
+  induction n as [|n IH]; intros k st es cs st'; cbn [hiter].
+  - destruct (is_zero k); intro H; inversion H; subst; (split; [reflexivity|]); (split; [apply h_same_refl|]); intros _ _; repeat split; congruence.
+  - destruct (is_zero k) eqn:Hz.
+    + intro H. inversion H; subst. split; [reflexivity|]. split; [apply h_same_refl|]. intros _ _. repeat split.
+    + destruct (hnext fixed cfg sts c st) as [[[es1 cs1] st1] o] eqn:En. destruct (hnext_spec _ _ _ _ _ _ _ _ _ En) as [H1 [H2 H3]].
+      destruct o.
+      * destruct (hiter n fixed cfg sts c (opred k) st1) as [[es2 cs2] st2] eqn:Ei. destruct (IH _ _ _ _ _ Ei) as [I1 [I2 _]].
+        intro H. inversion H; subst. split; [rewrite cancels_app, H1, I1; reflexivity|]. split; [exact (h_same_trans _ _ _ H2 I2)|].
+        intros Hf Hc. destruct (H3 Hf Hc) as [_ [_ Ho]]. discriminate Ho.
+      * intro H. inversion H; subst. split; [exact H1|]. split; [exact H2|]. intros Hf Hc. destruct (H3 Hf Hc) as [-> [-> _]]. repeat split.
+      * intro H. inversion H; subst. split; [exact H1|]. split; [exact H2|]. intros Hf Hc. destruct (H3 Hf Hc) as [-> [-> _]]. repeat split.
+      * intro H. inversion H; subst. split; [exact H1|]. split; [exact H2|]. intros Hf Hc. destruct (H3 Hf Hc) as [-> [-> _]]. repeat split.
+Qed.
+
+
+Lemma hK_same a b : h_same a b -> hK b = hK a.
+Proof. unfold hK. intros [-> [-> _]]. reflexivity. Qed.
+
+Lemma hstep_closed cfg sts c o st sg st' : hK st = true -> hstep true cfg sts c o st = (sg, st') ->
+  hK st' = true /\ refusal o sg.
+Proof.
+  intro HK. pose proof HK as HK'. unfold hK in HK'. apply andb_true_iff in HK' as [Hc Hf].
+  destruct o as [k| |rej| |]; cbn [hstep].
+  - destruct (hiter _ true cfg sts c k (h_set_it st HPend)) as [[es cs] st1] eqn:E.
+    destruct (hiter_spec _ _ _ _ _ _ _ _ _ _ E) as [_ [H2 H3]]. destruct (H3 eq_refl Hc) as [-> [H5 H6]].
+    intro H. inversion H; subst. split; [rewrite (hK_same _ _ H2); exact HK|]. split; [reflexivity|]. split; [exact H5|].
+    cbn [fst]. apply H6. discriminate.
+  - destruct (suspended (h_it st)).
+    + destruct (hnext true cfg sts c st) as [[[es cs] st1] o] eqn:E. destruct (hnext_spec _ _ _ _ _ _ _ _ _ E) as [_ [H2 H3]].
+      destruct (H3 eq_refl Hc) as [-> [-> _]]. intro H. inversion H; subst. split; [rewrite (hK_same _ _ H2); exact HK|]. repeat split. left. reflexivity.
+    + intro H. inversion H; subst. split; [exact HK|]. repeat split. right. reflexivity.
+  - rewrite Hc. cbn [andb]. intro H. inversion H; subst. split; [exact HK|]. repeat split.
+  - intro H. inversion H; subst. split; [exact HK|]. repeat split.
+  - rewrite Hf. intro H. inversion H; subst. split; [reflexivity|]. repeat split.
+Qed.
+
+Lemma hstep_cancels cfg sts c o st sg st' : hstep true cfg sts c o st = (sg, st') ->
+  cancels (snd sg) = O \/ (o = OCancel /\ hK st' = true /\ (cancels (snd sg) <= 1)%nat).
+Proof.
+  destruct o as [k| |rej| |]; cbn [hstep].
+  - destruct (hiter _ true cfg sts c k (h_set_it st HPend)) as [[es cs] st1] eqn:E. intro H. inversion H; subst. left. exact (proj1 (hiter_spec _ _ _ _ _ _ _ _ _ _ E)).
+  - destruct (suspended (h_it st)); [|intro H; inversion H; subst; left; reflexivity].
+    destruct (hnext true cfg sts c st) as [[[es cs] st1] o] eqn:E. intro H. inversion H; subst. left. exact (proj1 (hnext_spec _ _ _ _ _ _ _ _ _ E)).
+  - destruct (true && h_canc st); [intro H; inversion H; subst; left; reflexivity|].
+    destruct (h_tok st) as [i|]; [|intro H; inversion H; subst; left; reflexivity].
+    destruct rej; [intro H; inversion H; subst; left; reflexivity|].
+    destruct (exec_step false (nth_error sts i)) as [fs fl|e]; [|intro H; inversion H; subst; left; reflexivity].
+    destruct (over_cap cfg _); [intro H; inversion H; subst; left; reflexivity|].
+    destruct (cli_read c (fs ++ [FEos])) as [[es rd] r]. destruct rd; intro H; inversion H; subst; left; reflexivity.
+  - intro H. inversion H; subst. left. reflexivity.
+  - destruct (h_fin st); [intro H; inversion H; subst; left; reflexivity|].
+    destruct (h_tok st); intro H; inversion H; subst; [right; repeat split; cbn; lia|left; reflexivity].
+Qed.
+
+Lemma hrun_closed cfg sts c : forall ops st segs st', hK st = true -> run_ops (hstep true cfg sts c) ops st = (segs, st') ->
+  Forall2 refusal ops segs /\ all_calls segs = [] /\ hK st' = true.
+Proof.
+  induction ops as [|o r IH]; intros st segs st' Hc; cbn [run_ops].
+  - intro H. inversion H; subst. repeat split; [constructor|assumption].
+  - destruct (hstep true cfg sts c o st) as [sg st1] eqn:E. destruct (hstep_closed _ _ _ _ _ _ _ Hc E) as [Hc1 Hr].
+    destruct (run_ops (hstep true cfg sts c) r st1) as [l st2] eqn:Er. destruct (IH _ _ _ Hc1 Er) as [H1 [H2 H3]].
+    intro H. inversion H; subst. split; [constructor; assumption|]. split; [|exact H3].
+    unfold all_calls in *. cbn [flat_map]. rewrite H2. destruct Hr as [-> _]. reflexivity.
+Qed.
+
+Lemma hrun_cancels cfg sts c : forall ops st segs st', run_ops (hstep true cfg sts c) ops st = (segs, st') ->
+  (cancels (all_calls segs) <= (if hK st then 0 else 1))%nat.
+Proof.
+  induction ops as [|o r IH]; intros st segs st'; cbn [run_ops].
+  - intro H. inversion H; subst. cbn. destruct (hK st'); lia.
+  - destruct (hstep true cfg sts c o st) as [sg st1] eqn:E. destruct (run_ops (hstep true cfg sts c) r st1) as [l st2] eqn:Er.
+    intro H. inversion H; subst. unfold all_calls. cbn [flat_map]. rewrite cancels_app. fold (all_calls l).
+    pose proof (IH _ _ _ Er) as Hrest.
+    destruct (hK st) eqn:Ec.
+    + destruct (hstep_closed _ _ _ _ _ _ _ Ec E) as [Hc1 [Hs _]]. rewrite Hs, Hc1 in *. cbn. lia.
+    + destruct (hstep_cancels _ _ _ _ _ _ _ E) as [H0|[_ [Hc1 Hle]]].
+      * rewrite H0. destruct (hK st1); lia.
+      * rewrite Hc1 in Hrest. lia.
+Qed.
+
+Lemma hstep_cancel_op cfg sts c st sg st' : hstep true cfg sts c OCancel st = (sg, st') ->
+  fst sg = [] /\ processes (snd sg) = [] /\ hK st' = true.
+Proof.
+  cbn [hstep]. destruct (h_fin st); [intro H; inversion H; subst; repeat split|].
+  destruct (h_tok st); intro H; inversion H; subst; repeat split.
+Qed.
+
+Lemma hstep_rejected cfg sts c e st sg st' : hstep true cfg sts c (OExch (Some e)) st = (sg, st') -> snd sg = [].
+Proof.
+  cbn [hstep]. destruct (true && h_canc st); [intro H; inversion H; subst; reflexivity|].
+  destruct (h_tok st); intro H; inversion H; subst; reflexivity.
+Qed.
+
+(* ================================================================== the C10 statements *)
+Lemma iter_legal_reads sp h : legal (PStream sp) (SIter h 0 AStop CbRecord) = true -> pipe_reads (PStream sp) (SIter h 0 AStop CbRecord) = true.
+Proof. intros _. unfold pipe_reads. cbn. rewrite orb_true_r. reflexivity. Qed.
+
+Theorem producer_exact_pipe : forall sp h,
+  ires sp = InitOk -> legal (PStream sp) (SIter h 0 AStop CbRecord) = true -> no_exc_logs (PStream sp) = true ->
+  let t := run_pipe (PStream sp) (SIter h 0 AStop CbRecord) in
+  batches_of t = fst (emitted (steps sp))
+  /\ exists pre, t = pre ++ [end_event (snd (emitted (steps sp)))] /\ filter is_end pre = [] .
+Proof.
+  intros sp h Hi Hl Hq. cbn zeta.
+  destruct (pipe_sees sp (SIter h 0 AStop CbRecord) Hi eq_refl Hl eq_refl Hq (iter_legal_reads sp h Hl)) as [Hshape [Hb _]].
+  pose proof Hq as Hq'. cbn in Hq'. apply andb_true_iff in Hq' as [Hil Hst].
+  destruct (obs_prod_emitted (steps sp) Hst) as [H1 [_ [_ [pre [H4 H5]]]]].
+  split; [rewrite Hb; exact H1|].
+  exists (map ELog (ilogs sp) ++ hdr_events h sp ++ pre). split.
+  - rewrite Hshape. cbn [body_of hdr_of iter_n]. rewrite H4, <- !app_assoc. reflexivity.
+  - rewrite !filter_app, end_logs, end_hdr. exact H5.
+Qed.
+
+Theorem producer_exact_http : forall cfg sp h,
+  ires sp = InitOk -> legal (PStream sp) (SIter h 0 AStop CbRecord) = true -> no_exc_logs (PStream sp) = true ->
+  snd (emitted (steps sp)) = EndFinish \/ first_turn_ok cfg (PStream sp) (SIter h 0 AStop CbRecord) = true ->
+  let t := run_http cfg (PStream sp) (SIter h 0 AStop CbRecord) in
+  batches_of t = fst (emitted (steps sp)) /\ filter is_end t = [end_event (snd (emitted (steps sp)))].
+Proof.
+  intros cfg sp h Hi Hl Hq Hok. cbn zeta.
+  assert (Hft : first_turn_ok cfg (PStream sp) (SIter h 0 AStop CbRecord) = true).
+  { destruct Hok as [He|Hf]; [apply finishing_first_turn_ok; assumption|exact Hf]. }
+  destruct (http_sees cfg sp (SIter h 0 AStop CbRecord) Hi eq_refl Hl eq_refl Hq eq_refl eq_refl Hft) as [Hb [_ He]].
+  pose proof Hq as Hq'. cbn in Hq'. apply andb_true_iff in Hq' as [Hil Hst].
+  destruct (obs_prod_emitted (steps sp) Hst) as [H1 [H2 _]].
+  split; [rewrite Hb; exact H1|rewrite He; exact H2].
+Qed.
+
+Lemma emitted_emit_finish : forall pre bs x b post, Forall2 emits_only pre bs ->
+  sraise x = None -> fin x = true -> emit x = Some b -> emitted (pre ++ x :: post) = (bs ++ [b], EndFinish).
+Proof.
+  intros pre bs x b post H Hr Hf He. induction H as [|y c pre' bs' [Hy1 [Hy2 Hy3]] _ IH].
+  - cbn. rewrite Hr, Hf, He. reflexivity.
+  - cbn [app emitted]. rewrite Hy1, Hy2, Hy3, IH. reflexivity.
+Qed.
+
+Theorem emit_and_finish_delivers : forall cfg sp h pre bs x b post,
+  ires sp = InitOk -> legal (PStream sp) (SIter h 0 AStop CbRecord) = true -> no_exc_logs (PStream sp) = true ->
+  steps sp = pre ++ x :: post -> Forall2 emits_only pre bs -> sraise x = None -> fin x = true -> emit x = Some b ->
+  let tp := run_pipe (PStream sp) (SIter h 0 AStop CbRecord) in
+  let th := run_http cfg (PStream sp) (SIter h 0 AStop CbRecord) in
+  batches_of tp = bs ++ [b] /\ filter is_end tp = [EDone] /\ batches_of th = bs ++ [b] /\ filter is_end th = [EDone].
+Proof.
+  intros cfg sp h pre bs x b post Hi Hl Hq Hs Hpre Hr Hf He. cbn zeta.
+  pose proof (emitted_emit_finish pre bs x b post Hpre Hr Hf He) as Hem. rewrite <- Hs in Hem.
+  destruct (producer_exact_pipe sp h Hi Hl Hq) as [P1 [p [P2 P3]]].
+  destruct (producer_exact_http cfg sp h Hi Hl Hq (or_introl (f_equal snd Hem))) as [H1 H2].
+  rewrite Hem in *. cbn [fst snd end_event] in *. repeat split; try assumption.
+  rewrite P2, filter_app, P3. reflexivity.
+Qed.
+
+Lemma exch_body_one_per_input sp h n a : no_exc_logs (PStream sp) = true ->
+  let t := body_of sp (SExch h n a CbRecord) in
+  batches_of t = batches_of t /\ one_per_input (steps sp) n t /\ filter is_data t = map EBatch (batches_of t).
+Proof.
+  intro Hq. cbn in Hq. apply andb_true_iff in Hq as [_ Hst]. cbn zeta. cbn [body_of].
+  destruct (obs_exch_outputs n (steps sp) Hst) as [j [H1 [H2 [H3 [H4 H5]]]]]. cbn zeta in *.
+  split; [reflexivity|]. split; [|exact H3]. exists j. repeat split; assumption.
+Qed.
+
+Lemma one_per_input_sees sts n t t' : batches_of t' = batches_of t -> filter is_end t' = filter is_end t ->
+  one_per_input sts n t -> one_per_input sts n t'.
+Proof. intros Hb He [j [H1 [H2 [H3 H4]]]]. exists j. rewrite Hb, He. repeat split; assumption. Qed.
+
+Theorem exchange_one_per_input : forall cfg sp h n a,
+  ires sp = InitOk -> legal (PStream sp) (SExch h n a CbRecord) = true -> no_exc_logs (PStream sp) = true ->
+  (pipe_reads (PStream sp) (SExch h n a CbRecord) = true -> one_per_input (steps sp) n (run_pipe (PStream sp) (SExch h n a CbRecord)))
+  /\ (fits cfg (PStream sp) (SExch h n a CbRecord) = true -> one_per_input (steps sp) n (run_http cfg (PStream sp) (SExch h n a CbRecord))).
+Proof.
+  intros cfg sp h n a Hi Hl Hq. destruct (exch_body_one_per_input sp h n a Hq) as [_ [Hone _]]. cbn zeta in Hone. split.
+  - intro Hp. destruct (pipe_sees sp (SExch h n a CbRecord) Hi eq_refl Hl eq_refl Hq Hp) as [_ [Hb [_ He]]].
+    exact (one_per_input_sees _ _ _ _ Hb He Hone).
+  - intro Hf. destruct (http_sees cfg sp (SExch h n a CbRecord) Hi eq_refl Hl eq_refl Hq eq_refl Hf eq_refl) as [Hb [_ He]].
+    exact (one_per_input_sees _ _ _ _ Hb He Hone).
+Qed.
+
+Lemma finish_refused_step x : fin x = true -> exec_step false (Some x) = SErr finish_refused.
+Proof. intro H. unfold exec_step. rewrite H. reflexivity. Qed.
+
+(* if the j-th process() call is the first that misbehaves, and it calls finish(): j outputs, then the refusal *)
+Lemma one_per_input_finish sts n t j x : one_per_input sts n t ->
+  nth_error sts j = Some x -> fin x = true -> (j < n)%nat ->
+  (forall i, (i < j)%nat -> exists fs fl, exec_step false (nth_error sts i) = SFrames fs fl) ->
+  batches_of t = map (out_of sts) (seq 0 j) /\ filter is_end t = [err_event finish_refused].
+Proof.
+  intros [j' [H1 [H2 [H3 H4]]]] Hx Hf Hj Hok.
+  assert (Hbad : exec_step false (nth_error sts j) = SErr finish_refused) by (rewrite Hx; apply finish_refused_step; exact Hf).
+  assert (j' = j).
+  { destruct (Nat.lt_trichotomy j' j) as [Hlt|[Heq|Hgt]]; [|exact Heq|].
+    - exfalso. destruct H4 as [[-> _]|[_ [e [He _]]]]; [lia|]. destruct (Hok j' Hlt) as [fs [fl Hs]]. rewrite Hs in He. discriminate He.
+    - exfalso. destruct (H3 j Hgt) as [fs [fl Hs]]. rewrite Hs in Hbad. discriminate Hbad. }
+  subst j'. split; [exact H2|]. destruct H4 as [[-> _]|[_ [e [He ->]]]]; [lia|]. rewrite Hbad in He. inversion He. reflexivity.
+Qed.
+
+Theorem header_once_first : forall cfg sp sc,
+  ires sp = InitOk -> is_stream sc = true -> legal (PStream sp) sc = true -> records sc = true -> no_exc_logs (PStream sp) = true ->
+  (pipe_reads (PStream sp) sc = true ->
+     let t := run_pipe (PStream sp) sc in filter is_data t = hdr_events (hdr_of sc) sp ++ map EBatch (batches_of t))
+  /\ (complete sc = true -> fits cfg (PStream sp) sc = true -> first_turn_ok cfg (PStream sp) sc = true ->
+     let t := run_http cfg (PStream sp) sc in filter is_data t = hdr_events (hdr_of sc) sp ++ map EBatch (batches_of t)).
+Proof.
+  intros cfg sp sc Hi Hs Hl Hr Hq.
+  assert (Hbody : filter is_data (body_of sp sc) = map EBatch (batches_of (body_of sp sc))).
+  { destruct sc as [c|h k a c|h n a c]; [discriminate Hs| |]; destruct c; try discriminate Hr.
+    - cbn [body_of]. pose proof Hq as Hq'. cbn in Hq'. apply andb_true_iff in Hq' as [_ Hst]. apply obs_prod_data. exact Hst.
+    - exact (proj2 (proj2 (exch_body_one_per_input sp h n a Hq))). }
+  split.
+  - intro Hp. destruct (pipe_sees sp sc Hi Hs Hl Hr Hq Hp) as [_ [Hb [Hd _]]]. cbn zeta. rewrite Hd, Hb, Hbody. reflexivity.
+  - intros Hc Hf Ho. destruct (http_sees cfg sp sc Hi Hs Hl Hr Hq Hc Hf Ho) as [Hb [Hd _]]. cbn zeta. rewrite Hd, Hb, Hbody. reflexivity.
+Qed.
+
+Lemma run_ops_app {S : Type} (f : op -> S -> seg * S) : forall a b st,
+  run_ops f (a ++ b) st = let '(s1, st1) := run_ops f a st in let '(s2, st2) := run_ops f b st1 in (s1 ++ s2, st2).
+Proof.
+  induction a as [|o r IH]; intros b st; cbn [app run_ops].
+  - destruct (run_ops f b st) as [s2 st2]. reflexivity.
+  - destruct (f o st) as [sg st1]. rewrite IH. destruct (run_ops f r st1) as [s1 st2]. destruct (run_ops f b st2) as [s2 st3]. reflexivity.
+Qed.
+
+Lemma all_calls_app a b : all_calls (a ++ b) = all_calls a ++ all_calls b.
+Proof. unfold all_calls. apply flat_map_app. Qed.
+
+Theorem after_cancel_pipe : forall producer c st0 pre post segs1 st1 sgc st2 segs2 st3,
+  p_closed st0 = false ->
+  run_ops (pstep producer c) pre st0 = (segs1, st1) -> pstep producer c OCancel st1 = (sgc, st2) ->
+  run_ops (pstep producer c) post st2 = (segs2, st3) ->
+  processes (snd sgc ++ all_calls segs2) = []
+  /\ (cancels (all_calls segs1 ++ snd sgc ++ all_calls segs2) <= 1)%nat
+  /\ errors_of (fst sgc) = []
+  /\ Forall2 refusal post segs2.
+Proof.
+  intros producer c st0 pre post segs1 st1 sgc st2 segs2 st3 H0 R1 Rc R2.
+  destruct (pstep_cancel_op _ _ _ _ _ Rc) as [C1 [_ [C3 C4]]].
+  destruct (run_ops_closed _ _ _ _ _ _ C4 R2) as [F [A _]].
+  split; [rewrite A, app_nil_r; exact C3|]. split; [|split; [exact C1|exact F]].
+  pose proof (run_ops_cancels producer c (pre ++ OCancel :: post) st0) as Hall.
+  rewrite run_ops_app, R1 in Hall. cbn [run_ops] in Hall. rewrite Rc, R2 in Hall.
+  specialize (Hall _ _ eq_refl). rewrite H0 in Hall. rewrite all_calls_app in Hall. unfold all_calls at 2 in Hall. cbn [flat_map] in Hall.
+  fold (all_calls segs2) in Hall. exact Hall.
+Qed.
+
+Theorem after_cancel_http : forall cfg sts c st0 pre post segs1 st1 sgc st2 segs2 st3,
+  hK st0 = false ->
+  run_ops (hstep true cfg sts c) pre st0 = (segs1, st1) -> hstep true cfg sts c OCancel st1 = (sgc, st2) ->
+  run_ops (hstep true cfg sts c) post st2 = (segs2, st3) ->
+  processes (snd sgc ++ all_calls segs2) = []
+  /\ (cancels (all_calls segs1 ++ snd sgc ++ all_calls segs2) <= 1)%nat
+  /\ fst sgc = []
+  /\ Forall2 refusal post segs2.
+Proof.
+  intros cfg sts c st0 pre post segs1 st1 sgc st2 segs2 st3 H0 R1 Rc R2.
+  destruct (hstep_cancel_op _ _ _ _ _ _ Rc) as [C1 [C3 C4]].
+  destruct (hrun_closed _ _ _ _ _ _ _ C4 R2) as [F [A _]].
+  split; [rewrite A, app_nil_r; exact C3|]. split; [|split; [exact C1|exact F]].
+  pose proof (hrun_cancels cfg sts c (pre ++ OCancel :: post) st0) as Hall.
+  rewrite run_ops_app, R1 in Hall. cbn [run_ops] in Hall. rewrite Rc, R2 in Hall.
+  specialize (Hall _ _ eq_refl). rewrite H0 in Hall. rewrite all_calls_app in Hall. unfold all_calls at 2 in Hall. cbn [flat_map] in Hall.
+  fold (all_calls segs2) in Hall. exact Hall.
+Qed.
+
+(* every session starts open / not cancelled *)
+Lemma pipe_init_open sp h c ies st0 : pipe_init sp h c = (ies, Some st0) -> p_closed st0 = false.
+Proof.
+  unfold pipe_init. destruct (ires sp); try discriminate. destruct (srv_init sp h) as [q0 alive]. destruct h.
+  - destruct (cli_read c q0) as [[es o] r]. destruct o; intro H; inversion H; subst; reflexivity.
+  - intro H. inversion H; subst. reflexivity.
+Qed.
+
+Lemma http_init_open cfg sp h producer c ies ics st0 : http_init cfg sp h producer c = (ies, ics, Some st0) -> hK st0 = false.
+Proof.
+  unfold http_init. destruct (ires sp); try discriminate.
+  destruct (h && match hdr sp with Some _ => false | None => true end); [discriminate|].
+  destruct producer.
+  - destruct (http_turn cfg (steps sp) 0 _) as [t0 cs]. destruct (hparse_init c _ []) as [es [[pend t]|]]; intro H; inversion H; subst; reflexivity.
+  - destruct (hparse_init c _ []) as [es [[pend t]|]]; intro H; inversion H; subst; reflexivity.
+Qed.
